@@ -29,6 +29,9 @@ What is observed (all on the real code, nothing interpreted):
    update_dynamics_model; train_step_with_loss is recorded at trace time = its
    first call).
  * target-network updates (hard_/soft_target_net_update module globals, wrapped).
+ * TD7 with use_checkpoints (C15 loop obligations assess.pre.* / release.*, C06
+   checkpoint copy): arguments and results of assess_performance_and_checkpoint
+   and the epoch argument of every _train_step call.
 Each routine is run on a small grid: several (total_timesteps, global_step)
 pairs incl. start == total, start > total and start > 0, total_episodes in
 {None, 1, 2, 3}, four episode scripts, learning_starts in {0, 5, > total}.
@@ -179,6 +182,12 @@ class Recorder:
         self.targets = []  # dict(kind, net, target, tau, executed)
         self.watched = {}
         self.prints = {}
+        # TD7 checkpoint release (C15) / checkpoint copy (C06)
+        self.trained = 0
+        self.released = 0
+        self.epoch0 = 0
+        self.in_train_step = False
+        self.assess = []  # (executed, update_checkpoint, training_steps)
 
     def bad(self, clause, detail):
         if len(self.violations) < 50:
@@ -267,7 +276,7 @@ class Recorder:
 
     # C06 ---------------------------------------------------------------
     def on_target(self, kind, net, target, tau=None):
-        self.targets.append(dict(kind=kind, net=net, target=target, tau=tau, executed=len(self.env.steps)))
+        self.targets.append(dict(kind=kind, net=net, target=target, tau=tau, executed=len(self.env.steps), inner=self.in_train_step))
 
 
 def recording(cls):
@@ -517,7 +526,42 @@ def build(routine, env, rec, cfg):
                   replay_buffer=buffer(RB.LAP, 200))
         for m in (st.embedding, st.actor, st.critic):
             rec.watch("td7-train-step", m)
-        patches += wrap_updates(mod, rec, {"_train_step": "td7-train-step"})
+        import inspect
+
+        real_step, real_assess = mod._train_step, mod.assess_performance_and_checkpoint
+        sig = inspect.signature(real_step)
+        rec.epoch0 = max(0, cfg["start"] - ls)
+
+        def train_step(*a, **k):
+            rec.on_update("td7-train-step")
+            rec.trained += 1
+            epoch = sig.bind(*a, **k).arguments.get("epoch")
+            if epoch != rec.epoch0 + rec.trained:
+                rec.bad("release.epoch_counts_training_iterations",
+                        f"training iteration #{rec.trained} of this call runs with epoch={epoch}; epoch at entry max(0, start - learning_starts) = {rec.epoch0}")
+            rec.in_train_step = True
+            try:
+                return real_step(*a, **k)
+            finally:
+                rec.in_train_step = False
+
+        def assess(checkpoint_state, steps_per_episode, episode_return, epoch, *a, **k):
+            ep = [r for r in env.steps if r["episode"] == env.episode]
+            if env.alive:
+                rec.bad("assess.pre.called_when_episode_ended", f"assessed after {len(env.steps)} steps while the episode is still running")
+            if steps_per_episode != len(ep):
+                rec.bad("assess.pre.steps_of_the_episode_that_just_ended", f"steps_per_episode={steps_per_episode}, the episode had {len(ep)} steps")
+            want = sum(r["reward"] for r in ep)
+            if abs(float(episode_return) - want) > 1e-9:
+                rec.bad("assess.pre.return_of_the_episode_that_just_ended", f"episode_return={float(episode_return)}, rewards of the episode sum to {want}")
+            if epoch != rec.epoch0 + rec.trained:
+                rec.bad("assess.pre.epoch_is_training_iteration_count", f"epoch={epoch}, entry epoch {rec.epoch0} + {rec.trained} training iterations so far")
+            out = real_assess(checkpoint_state, steps_per_episode, episode_return, epoch, *a, **k)
+            rec.released += int(out[1])
+            rec.assess.append((len(env.steps), bool(out[0]), int(out[1])))
+            return out
+
+        patches += [(mod, "_train_step", train_step), (mod, "assess_performance_and_checkpoint", assess)]
         return fn, kw, patches, info
 
     if family == "mrq":
@@ -680,10 +724,30 @@ def run_once(routine, cfg):
                     V.append(dict(clause=f"target.cadence.changes_exactly_at_documented_points[{role}]",
                                   detail=f"step index {s}: {got} target update(s), documented {want}"))
                     break
+    if fam == "td7" and kw.get("use_checkpoints") and raised is None:
+        if rec.trained != rec.released:
+            V.append(dict(clause="release.training_iterations_equal_released_steps",
+                          detail=f"{rec.trained} training iterations run, assess_performance_and_checkpoint released {rec.released}"))
+        copies = {}
+        for t in rec.targets:
+            if not t["inner"]:  # the checkpoint copy in train_td7 itself
+                copies[t["executed"]] = copies.get(t["executed"], 0) + 1
+                if t["kind"] != "hard":
+                    V.append(dict(clause="target.rule[policy]", detail="checkpoint copy is not a hard update"))
+                if t["net"] is t["target"]:
+                    V.append(dict(clause="target.disjoint_storage[policy]", detail="checkpoint is the acting policy object"))
+        due = {}
+        for ex, upd, _ in rec.assess:
+            due[ex] = due.get(ex, 0) + (1 if upd else 0)
+        for ex in sorted(set(copies) | set(due)):
+            if copies.get(ex, 0) != due.get(ex, 0):
+                V.append(dict(clause="target.cadence.changes_exactly_at_documented_points[policy]",
+                              detail=f"after {ex} steps: {copies.get(ex, 0)} checkpoint copies, update_checkpoint returned True {due.get(ex, 0)} time(s)"))
+                break
     out["conf"] = conf
     out["stats"] = dict(executed=executed, finished_episodes=env.finished, stores=rec.n_stores, acts=rec.acts_by_site,
                         updates=len(rec.updates), first_update_after=min((u[1] for u in rec.updates), default=None),
-                        target_updates=len(rec.targets), reported=(int(getattr(result, ret)) if ret and result is not None and getattr(result, ret, None) is not None else None))
+                        target_updates=len(rec.targets), **({"trained": rec.trained, "released": rec.released, "assessed": len(rec.assess), "checkpoints": sum(a[1] for a in rec.assess)} if fam == "td7" else {}), reported=(int(getattr(result, ret)) if ret and result is not None and getattr(result, ret, None) is not None else None))
     out["exception_type"] = type(raised).__name__ if raised is not None and not isinstance(raised, (EpisodeOver, Runaway)) else None
     return out
 
@@ -719,7 +783,10 @@ def grid(routine, scen):
         out.append(c)
     extra = []
     if fam == "td7":  # training is released by the checkpoint logic at episode ends
-        extra = [dict(out[0], use_checkpoints=True), dict(out[1], use_checkpoints=True), dict(out[6], use_checkpoints=True)]
+        if "use_checkpoints" in scen:
+            out = [dict(c, use_checkpoints=True) for c in out] + [out[0], out[2]]
+        else:
+            extra = [dict(out[0], use_checkpoints=True), dict(out[1], use_checkpoints=True), dict(out[6], use_checkpoints=True), dict(out[7], use_checkpoints=True)]
     if fam in ("ddpg", "td3"):
         extra = [dict(out[0], gradient_steps=2)]
     if fam == "sac":
@@ -733,7 +800,7 @@ def grid(routine, scen):
 FAMILIES = [
     ("post.accounting", "accounting"), ("post.budget", "budget"), ("step.pre.within_budget", "budget"), ("post.episodes", "episodes"),
     ("step.pre.episode_running", "typestate"), ("update.pre.warmup_met", "warmup"), ("store.pre.", "store"), ("act.pre.", "act"),
-    ("target.", "target"), ("no_uncaught_exception", "exception"),
+    ("target.", "target"), ("no_uncaught_exception", "exception"), ("assess.pre.", "td7-release"), ("release.", "td7-release"),
 ]
 
 
@@ -777,12 +844,12 @@ def main():
         st = r["stats"]
         tried.append(f"{r['conf']}{''.join(f', {k}={v}' for k, v in r['cfg'].items() if k not in ('total', 'start', 'episodes', 'script', 'learning_starts'))}"
                      f" -> executed={st['executed']} finished_episodes={st['finished_episodes']} reported={st['reported']} stores={st['stores']}"
-                     f" acts={sum(st['acts'].values())} updates={st['updates']} first_update_after={st['first_update_after']} ({r['seconds']} s)")
+                     f" acts={sum(st['acts'].values())} updates={st['updates']} first_update_after={st['first_update_after']}{''.join(f' {k}={st[k]}' for k in ('trained', 'released', 'assessed', 'checkpoints') if k in st)} ({r['seconds']} s)")
         if r["error"]:
             errors.append(f"{r['cfg']}: {r['error']}")
         if want_exc and r["exception_type"] == want_exc.group(1):
             done(True, dict(routine=routine, configuration=r["conf"], violated=clause, observed=r["error"], traceback=r.get("traceback")))
-        for v in r["violations"]:
+        for v in sorted(r["violations"], key=lambda v: v["clause"] != clause):
             how = matches(clause, v)
             if how:
                 same = [w["detail"] for w in r["violations"] if w["clause"] == v["clause"]]
@@ -790,7 +857,8 @@ def main():
                                 occurrences_in_this_run=len(same), run=r["stats"],
                                 other_clauses_violated_in_this_run=sorted({w["clause"] for w in r["violations"]} - {v["clause"]})))
             other.append(f"{v['clause']}: {v['detail']} [{r['conf']}]")
-    note = (f"{routine}: clause {clause!r} held natively in {len(tried)} runs of the real routine "
+    n_grid = len(grid(routine, scen))
+    note = (f"{routine}: clause {clause!r} held natively in {len(tried)} of {n_grid} planned runs of the real routine "
             f"(scripted env, recording buffer; {round(time.time() - T0)} s)")
     done(False, None, note=note, configurations=tried, routine_exceptions=errors[:6],
          other_clauses_violated=sorted(set(other))[:6])
